@@ -99,8 +99,12 @@ def write_if_changed(path, content):
 def stage_gen():
     """Regenerate coq/Gen/*.v from /repo's current sources. Returns (ok, report)."""
     tr = os.path.join(VERIF, "translator", "gen.py")
-    if not os.path.exists(tr):
-        return True, {"skipped": True}
+    os.makedirs(os.path.join(COQ, "Gen"), exist_ok=True)
+    # the operator universe comes from the pinned wasmparser via the harness (for_each_operator!)
+    rc, out, _ = sh([vh(), "oplist"], timeout=120)
+    if rc != 0:
+        return False, {"error": "vh oplist failed: " + out[-500:]}
+    write_if_changed(os.path.join(COQ, "Gen", "oplist.json"), out)
     rc, out, dt = sh([sys.executable, tr, "--repo", REPO, "--out", os.path.join(COQ, "Gen")], timeout=300)
     rep = {}
     try:
@@ -271,7 +275,10 @@ def _coqc_case(path):
     rc, out, dt = sh(["coqc", "-noglob", "-Q", COQ, "WV", os.path.basename(path)], cwd=os.path.dirname(path), timeout=900)
     if rc != 0:
         return path, None, out[-2000:]
-    nums = [int(x) for x in re.findall(r"(\d+)%N", out)]
+    m = re.search(r"=\s*\[(.*?)\]\s*:\s*list", out, re.S)
+    nums = [int(x) for x in re.findall(r"\d+", re.sub(r"%N", "", m.group(1)))] if m else ([] if "= []" in out else None)
+    if nums is None:
+        return path, None, "unparsable coqc output: " + out[-500:]
     return path, nums, None
 
 
